@@ -890,3 +890,94 @@ Proof.
     destruct fx as [[] f2 f3 f10]; cbv -[String.length Nat.eqb Nat.leb negb orb andb]; rewrite !L; reflexivity.
   - do 2 eexists. splits; try reflexivity. eexists. reflexivity.
 Qed.
+
+Lemma collide_heads x y ra rb :
+  String.length x = String.length y -> x <> y -> collide (FX x :: ra) (FX y :: rb) = false.
+Proof.
+  intros L N. unfold collide.
+  destruct (String.eqb_spec (cat (FX x :: ra)) (cat (FX y :: rb))) as [E|]; [|reflexivity].
+  rewrite !cat_cons in E. simpl fbytes in E. destruct (sapp_inv_len _ _ _ _ L E). contradiction.
+Qed.
+
+Lemma p_F4_false_by_shift fx H a b : p_F4_shift fx H a b = false -> p_F4 fx H a b = false.
+Proof.
+  intro S. destruct (p_F4 fx H a b) eqn:P; [|reflexivity]. apply p_F4_in_shift in P. congruence.
+Qed.
+
+(** two look-ups at endpoints whose hashed bytes differ do not collide (SHA-256 without collisions) *)
+Lemma p_F4_false_cross fx H a b :
+  injective H -> (forall x, String.length (H x) = 32) ->
+  String.eqb (cat (ep_fields fx H (st_ho a) (eff_ep (st_inst a)))) (cat (ep_fields fx H (st_ho b) (eff_ep (st_inst b)))) = false ->
+  auth_collide (e_auth (eff_ep (st_inst a))) (e_auth (eff_ep (st_inst b))) = false ->
+  (exists ra, opt_fields fx H a = FX (ep_hash fx H (st_ho a) (eff_ep (st_inst a))) :: ra) ->
+  (exists rb, opt_fields fx H b = FX (ep_hash fx H (st_ho b) (eff_ep (st_inst b))) :: rb) ->
+  p_F4 fx H a b = false.
+Proof.
+  intros I L E A [ra Ra] [rb Rb]. unfold p_F4. rewrite Ra, Rb, A.
+  rewrite collide_heads.
+  - unfold collide at 1. rewrite E. simpl. now rewrite !andb_false_r.
+  - unfold ep_hash, digest. now rewrite !L.
+  - unfold ep_hash, digest. intro X. apply I in X. rewrite X, String.eqb_refl in E. discriminate.
+Qed.
+
+Lemma exists_pair_intro_false {A} (f : A -> A -> bool) : forall l,
+  (forall a b, In a l -> In b l -> f a b = false) -> exists_pair f l = false.
+Proof.
+  induction l as [|x l IH]; intro F; [reflexivity|]. simpl. apply orb_false_iff. split.
+  - destruct (existsb (fun y => f x y || f y x) l) eqn:E; [|reflexivity].
+    apply existsb_exists in E as [y [Iy E]].
+    assert (F1 : f x y = false) by (apply F; simpl; auto).
+    assert (F2 : f y x = false) by (apply F; simpl; auto).
+    rewrite F1, F2 in E. discriminate.
+  - apply IH. intros a b Ia Ib. apply F; simpl; auto.
+Qed.
+
+(** the same for a history that mixes three kinds of mechanisms on one cache
+    (remote authorizer, introspection with a scope requirement, generic
+    authenticator asserting the session lifespan), with subjects, tokens and
+    header values of different lengths; its fifth request repeats the second.
+    (An introspection endpoint always has two headers, so the repeated key is
+    deterministic only with the repaired, sorted order — [g_F1] is not among
+    the hypotheses of [cache_transparent] and is not claimed here.) *)
+Definition mixed_history : list step :=
+  [mk_step w_ok (q_sub "alice" [("X-V1", "h1")] []) ["X-A"] ["v1"];
+   mk_step (w_intro ["read"]) (q_plain "t.alice.r") intro_ho [];
+   mk_step (w_gen true) (q_plain "t.alice.rw") ["X-Cred"] [];
+   mk_step w_ok (q_sub "carolyn" [("X-V1", "h22")] []) ["X-A"] ["v1"];
+   mk_step (w_intro ["read"]) (q_plain "t.alice.r") intro_ho [];
+   mk_step w_ok (q_sub "alice" [("X-V1", "h1")] []) ["X-A"] ["v1"]].
+
+Theorem nonvacuous_mixed :
+  wf_history mixed_history /\
+  (forall fx H, g_F2 fx H mixed_history = false /\ g_F3 fx H mixed_history = false /\ g_F10 fx H mixed_history = false /\
+                g_F6 fx H mixed_history = false /\ g_F7 fx H mixed_history = false) /\
+  (forall fx H, injective H -> (forall x, String.length (H x) = 32) -> g_F4 fx H mixed_history = false) /\
+  (exists a b, nth_error mixed_history 1 = Some a /\ nth_error mixed_history 4 = Some b /\ same_request a b = true /\
+               enabled (st_inst a) = true /\ i_kind (st_inst a) = KIntro /\
+               exists r, fresh_of w_world a = OAllow r) /\
+  (exists c r, nth_error mixed_history 2 = Some c /\ i_kind (st_inst c) = KGen /\ fresh_of w_world c = OAllow r).
+Proof.
+  splits; try reflexivity.
+  - split.
+    + intros s I. split.
+      * repeat (destruct I as [<-|I]; [reflexivity|]). destruct I.
+      * repeat (destruct I as [<-|I]; [split; simpl; apply Permutation_refl|]). destruct I.
+    + intros a b Ia Ib.
+      repeat (destruct Ia as [<-|Ia]; [repeat (destruct Ib as [<-|Ib]; [intro E; try reflexivity; discriminate E|]); destruct Ib|]).
+      destruct Ia.
+  - intros fx H.
+    assert (KL : forall p a b, keyed fx H p a b = true -> p a b = true).
+    { unfold keyed. intros p a b E. now apply andb_true_iff in E as [_ E]. }
+    splits; [apply (exists_pair_mono _ p_F2) | apply (exists_pair_mono _ p_F3) | apply (exists_pair_mono _ p_F10)
+            | apply (exists_pair_mono _ p_F6) | apply (exists_pair_mono _ p_F7)]; try apply KL; reflexivity.
+  - intros fx H I L. unfold g_F4. apply exists_pair_intro_false. intros a b Ia Ib.
+    destruct fx as [f1 f2 f3 f10].
+    repeat (destruct Ia as [<-|Ia]; [repeat (destruct Ib as [<-|Ib]; [
+      first [ apply p_F4_false_cross; [exact I|exact L|destruct f1; reflexivity|reflexivity|eexists; reflexivity|eexists; reflexivity]
+            | apply p_F4_false_by_shift; destruct f1; cbv -[String.length Nat.eqb Nat.leb negb orb andb]; rewrite !L; reflexivity ]
+      |]); destruct Ib|]).
+    destruct Ia.
+  - do 2 eexists. splits; try reflexivity. eexists. reflexivity.
+  - do 2 eexists. splits; reflexivity.
+Qed.
+
